@@ -6,7 +6,7 @@
      go/libraries/doltcore/table/untyped/csv/reader.go   readLine (CRLF normalisation), csvReadRecords,
                                                          parseField, parseQuotedField
    No proofs here. *)
-From Coq Require Import NArith List Bool.
+From Coq Require Import NArith ZArith List Bool.
 From Dolt Require Import Base.Str.
 Import ListNotations.
 Local Open Scope N_scope.
@@ -243,3 +243,73 @@ Definition trim_line (s : bytes) : bytes := trim_std (length s) s.
 Definition csv_write (fs : list (option bytes)) : bytes := write_record starts_space_std fs.
 Definition csv_read (text : bytes) : option (option (list (option bytes)) * bytes) :=
   read_record trim_line (normalize_crlf text).
+
+(* ---------- per-type value formatting (interfaceValueAsSqlString) and the literal forms a MySQL
+   lexer accepts ---------- *)
+(* decimal digits of a natural number; fuel bounds the number of digits *)
+Fixpoint digits (fuel : nat) (n : N) : bytes :=
+  match fuel with
+  | O => []
+  | S f => if n <? 10 then [48 + n] else digits f (n / 10) ++ [48 + n mod 10]
+  end.
+Definition fmt_nat (n : N) : bytes := digits (S (N.to_nat (N.log2 n))) n.
+
+Fixpoint parse_digits (s : bytes) (acc : N) : option N :=
+  match s with
+  | [] => Some acc
+  | c :: t => if (48 <=? c) && (c <=? 57) then parse_digits t (10 * acc + (c - 48)) else None
+  end.
+Definition parse_nat (s : bytes) : option N :=
+  match s with [] => None | _ => parse_digits s 0 end.
+
+(* fmt %d of a signed integer / the lexer's integer literal with an optional minus sign *)
+Definition fmt_int (z : Z) : bytes :=
+  match z with
+  | Z0 => [48]
+  | Zpos p => fmt_nat (Npos p)
+  | Zneg p => 45 :: fmt_nat (Npos p)
+  end.
+Definition parse_int (s : bytes) : option Z :=
+  match s with
+  | c :: t => if c =? 45 then match parse_nat t with Some n => Some (Z.opp (Z.of_N n)) | None => None end
+              else match parse_nat s with Some n => Some (Z.of_N n) | None => None end
+  | [] => None
+  end.
+
+(* the value classes of interfaceValueAsSqlString *)
+Inductive sqlval :=
+| VNull
+| VInt (z : Z)                 (* integer types: bare decimal *)
+| VText (s : bytes)            (* char / varchar / text / json / enum / set / blob: quoted and escaped *)
+| VBin (s : bytes)             (* binary / varbinary: 0x hex *)
+| VTemporal (s : bytes)        (* date / datetime / timestamp / time / year: the formatted text between quotes, not escaped *)
+| VBit (s : bytes).            (* bit(n): falls into the default branch, the raw value bytes are emitted *)
+
+Definition s_null : bytes := [78; 85; 76; 76].
+Definition fmt_val (v : sqlval) : bytes :=
+  match v with
+  | VNull => s_null
+  | VInt z => fmt_int z
+  | VText s => sql_quote s
+  | VBin s => hex_encode s
+  | VTemporal s => 39 :: s ++ [39]
+  | VBit s => s
+  end.
+
+(* what the literal text denotes when read back for a column of the same class; None = not a literal *)
+Definition parse_val (like : sqlval) (text : bytes) : option sqlval :=
+  if beq_bytes text s_null then Some VNull else
+  match like with
+  | VInt _ => match parse_int text with Some z => Some (VInt z) | None => None end
+  | VText _ => match sql_unquote text with Some (s, []) => Some (VText s) | _ => None end
+  | VTemporal _ => match sql_unquote text with Some (s, []) => Some (VTemporal s) | _ => None end
+  | VBin _ => match hex_decode text with Some s => Some (VBin s) | None => None end
+  | VBit _ =>
+    (* a BIT column accepts an integer literal, a b'..' literal or a hex literal; raw bytes are none of these
+       unless they happen to be ASCII digits, in which case they denote that number, not those bytes *)
+    match parse_int text with
+    | Some z => Some (VBit [Z.to_N z])
+    | None => match hex_decode text with Some s => Some (VBit s) | None => None end
+    end
+  | VNull => None
+  end.
